@@ -380,7 +380,7 @@ def ip_lines(ctx):
             for pad in (0, 1, 6, 46):
                 dec.append(gen.H("IP", ["unpack " + hexb(b + rng.bytes_(pad)), "obs", "pack", "obs"]))
     # arbitrary (option-less or not) headers: version/IHL nibbles, total length below 20 / beyond the buffer
-    for _ in range(ctx.scale(150, 5000)):
+    for _ in range(ctx.scale(600, 5000)):
         h = bytearray(rng.bytes_(20))
         c = rng.random()
         if c < 0.7:
@@ -1158,14 +1158,14 @@ def malformed_pcap_files(ctx, rng):
 def corr_C05(ctx):
     rng = ctx.rng
     lines = []
-    for _ in range(ctx.scale(150, 3000)):
+    for _ in range(ctx.scale(400, 3000)):
         lines.append(gen.H("PcapFile", pcap_session_history(rng)))
-    for _ in range(ctx.scale(150, 3000)):
+    for _ in range(ctx.scale(500, 3000)):
         lines.append(gen.H("PcapFile", pcap_soup_history(rng, rng.randrange(1, 14))))
     for _ in range(ctx.scale(40, 600)):
         lines.append(gen.H("PcapFile", pcap_zero_session_history(rng)))
-    for _ in range(ctx.scale(2, 12)):
-        lines += pcap_truncation_lines(ctx, rng, ctx.scale(200, 400))
+    for _ in range(ctx.scale(4, 12)):
+        lines += pcap_truncation_lines(ctx, rng, ctx.scale(300, 400))
     for shape in EMPTY_SHAPES:                         # empty payloads: last record, and directly before the cut
         lines += pcap_truncation_lines(ctx, rng, 0, shape)
     for n in ([1500, 65535] if ctx.tier == "thorough" else [1500]):
@@ -1266,7 +1266,7 @@ def oracles_C05(ctx, hints):
     rng = ctx.rng
     fails, n = [], 0
     k = 4 if getattr(ctx, "search_mode", False) else 1
-    for j in range(ctx.scale(60, 1500) * k):
+    for j in range(ctx.scale(150, 1500) * k):
         cnt = j % 7
         recs = [[rng.boundary(32), rng.boundary(32), rng.bytes_(rng.choice([0, 1, 5, 16, 60]) if j % 20 else 65535).hex()] for _ in range(cnt)]
         splits, left = [], cnt
@@ -1406,7 +1406,7 @@ def corr_C16(ctx):
         fr = frag_vals(rng, x, rand_cuts(rng, total, n), hdr) if n else []
         for perm in itertools.permutations(fr):
             lines.append(gen.F("combine_ip_fragments", "[" + ";".join(perm) + "]"))
-    for _ in range(ctx.scale(60, 2000)):
+    for _ in range(ctx.scale(300, 2000)):
         n = rng.randrange(1, 12)
         total = 8 * n + rng.randrange(0, 60) + 8
         x = rng.bytes_(total)
